@@ -136,11 +136,23 @@ def whole_runs(ctx):
                                      'oam_total_fixed': bool(P('oamtotalfixed')['valid']), 'Coam': P('Coam')['value']}))
         except KeyError:
             pass
+        raw_in = R.snap.get('input_parameters', {}) or {}
+
+        def stated(a):
+            """the figure the user stated for parameter a (a bare number in the input file), else the value the run holds: a
+            reader that rewrites a stated price must not thereby redefine 'the starting / ending price'"""
+            prm = P(a)
+            raw = raw_in.get(prm.get('name')) if prm.get('provided') else None
+            try:
+                return float(raw[0].strip()) if raw else prm['value']
+            except (ValueError, IndexError, AttributeError, TypeError):
+                return prm['value']
+
         for prod, ptc in (('Elec', 'PTCElec'), ('Heat', 'PTCHeat'), ('Cooling', 'PTCCooling'), ('Carbon', None)):
             prov = bool(P(ptc)['provided']) if ptc else False
             flat = [F(R.life), F(int(prov)), F(int(P('PTCDuration')['value'])), F(P(ptc)['value']) if ptc else F(0),
-                    F(int(bool(P('PTCInflationAdjusted')['value']))), F(P('RINFL')['value']), F(P(prod + 'StartPrice')['value']),
-                    F(P(prod + 'EndPrice')['value']), F(int(P(prod + 'EscalationStart')['value'])), F(P(prod + 'EscalationRate')['value']),
+                    F(int(bool(P('PTCInflationAdjusted')['value']))), F(P('RINFL')['value']), F(stated(prod + 'StartPrice')),
+                    F(stated(prod + 'EndPrice')), F(int(stated(prod + 'EscalationStart'))), F(stated(prod + 'EscalationRate')),
                     F(R.cy)]
             series = P(prod + 'Price')['value']
             desc = {'product': prod, 'life': R.life, 'cy': R.cy, 'ptc_provided': prov, 'esc': int(P(prod + 'EscalationStart')['value']),
